@@ -1,4 +1,5 @@
 import Vgi.Proofs.Listener
+import Vgi.Generated.C42
 /-!
 # C42 — Socket listeners serve connections independently and stop only when idle
 
@@ -152,6 +153,25 @@ theorem socket_file_lifecycle (C : Cfg) (s : LState) (hr : Reachable (sys C) s) 
     (C.unix = false → s.file = none) := by
   have hI := reachable_inv C s hr
   exact ⟨hI.fileU, hI.fileT⟩
+
+/-! ### Facts regenerated from the source on every run (tools/factgen/c42) -/
+
+/-- **lockset_discipline**: every read and write of `active`, `timer` and `shutdown` in `RunUnix`
+and `RunTcp` (including the `arm`/`disarm` helpers at all their call sites and the timer callback)
+happens with `mu` held — which is what makes each of the model's actions one critical section. -/
+theorem lockset_discipline : ∀ a ∈ Vgi.Generated.C42.accesses, "mu" ∈ a.held := by decide
+
+/-- The analysis saw all three variables, written and read, in both files. -/
+theorem lockset_covers :
+    ∀ f ∈ ["server_unix.go", "server_tcp.go"], ∀ v ∈ ["active", "timer", "shutdown"],
+      (Vgi.Generated.C42.accesses.any fun a => a.file = f ∧ a.field = v ∧ a.write = true) = true ∧
+      (Vgi.Generated.C42.accesses.any fun a => a.file = f ∧ a.field = v ∧ a.write = false) = true := by decide
+
+/-- **structure_facts**: `shutdown = true` only under `if active == 0`; the idle re-arm only under
+`active == 0`; `wg.Add`/`wg.Wait` bracket the connections; `serveOne` gets the connection's own
+reader/writer and a shm state allocated per connection; the socket file is chmod 0600 and removed
+by a deferred call. -/
+theorem structure_facts : ∀ f ∈ Vgi.Generated.C42.facts, f.2 = true := by decide
 
 /-! ### Non-vacuity -/
 
